@@ -424,6 +424,11 @@ func (em *EModel) finishFiring(r *run) {
 			oracle = "C14.partial-effects"
 		}
 		r.violate(oracle, fmt.Sprintf("after firing %s (cycle %d) the facts differ from the model:\n%s", name, em.cycle, diffCanon(realC, modelC)))
+		if em.actErrSeen && em.actFault == nil {
+			// a statement that must fail by itself (no injected fault) and fact data that changed beyond the
+			// statements completed before it: something was written that no statement addresses (C04)
+			r.violate("C04.written-by-failing-statement", fmt.Sprintf("rule %s (cycle %d): a statement of its action list fails on these facts, yet the facts differ from what the statements before it leave:\n%s", name, em.cycle, diffCanon(realC, modelC)))
+		}
 		if pre != nil && !em.actErrSeen {
 			// do the real facts equal the model after a strict PREFIX of the list? then the firing was not applied completely
 			pm := &grl.Model{S: pre}
